@@ -3,6 +3,7 @@ whether the CLI binary is needed, the non-triviality rule that the harness appli
 
 PROPS = {
     "C03": {
+        "cli": True,
         "streams": {"C03": (300, 4000)},
         "thorough_seeds": 3,
         "shrink": True,
@@ -29,6 +30,7 @@ PROPS = {
                 "panic recovery and a time-out; non-trivial = corrupted, multi-record or CRLF; distinct = distinct byte stream",
     },
     "C06": {
+        "cli": True,
         "streams": {"C06": (600, 10000)},
         "thorough_seeds": 3,
         "shrink": True,
@@ -39,6 +41,7 @@ PROPS = {
                 "non-trivial = the target set contains a constructed tie or an undefined distance",
     },
     "C07": {
+        "cli": True,
         "streams": {"C07": (400, 8000)},
         "thorough_seeds": 3,
         "shrink": True,
@@ -47,6 +50,7 @@ PROPS = {
                 "tn93 within 1e-9 of the same expression evaluated on the definitional counts); non-trivial as C06",
     },
     "C10": {
+        "cli": True,
         "streams": {"C10": (600, 10000)},
         "thorough_seeds": 3,
         "shrink": True,
@@ -55,6 +59,7 @@ PROPS = {
                 "non-trivial = some row has a non-A/C/G/T column",
     },
     "C04": {
+        "cli": True,
         "streams": {"C04": (400, 6000)},
         "thorough_seeds": 3,
         "rule": "genomes 30-160 nt; 0-6 coding features: forward/reverse, 1-3 segments (abutting, overlapping by one base, apart), codon_start 1-3, a nested gene "
@@ -64,6 +69,7 @@ PROPS = {
                 "variants.Variants in-process; non-trivial = at least one coding feature or a gapped reference row",
     },
     "C05": {
+        "cli": True,
         "streams": {"C05": (500, 8000)},
         "thorough_seeds": 3,
         "rule": "as C04 with 1-5 deletions per query (touching either end), 0-6 insertion sites incl. before base 1 and after the last base, queries carrying "
@@ -71,12 +77,14 @@ PROPS = {
                 "alignment with 1-5 extra both-gap column blocks injected must give byte-identical output",
     },
     "C13": {
+        "cli": True,
         "streams": {"C13": (600, 8000)},
         "thorough_seeds": 3,
         "rule": "a third snps alignments (1-30 rows, width <= 40), two thirds variants cases; thresholds 0, 1, k/n to three decimals, random percent; half the "
                 "cases compare --aggregate with the model and spec, half re-derive the table from the real per-sequence output of the same input",
     },
     "C14": {
+        "cli": True,
         "streams": {"C14": (500, 8000)},
         "thorough_seeds": 3,
         "rule": "1-5 genes expressible in both formats (all five location shapes, 1-3 segments with lengths not multiples of 3, codon_start 1-3, conformant "
@@ -84,6 +92,7 @@ PROPS = {
                 "compare the two real runs as per-row multisets",
     },
     "C01": {
+        "cli": True,
         "extra_imports": ["Gofasta.Lemmas.SamWalk", "Gofasta.Lemmas.SamFlatten"],
         "extra_theorems": ["Gofasta.Lemmas.walk_cov", "Gofasta.Lemmas.walk_row", "Gofasta.Lemmas.covList_ge", "Gofasta.Lemmas.covList_lt",
                            "Gofasta.Lemmas.single_record_row", "Gofasta.Lemmas.swapNs_starRow", "Gofasta.Lemmas.swapGaps_starRow",
@@ -97,6 +106,7 @@ PROPS = {
                 "(1, 7, 60, L, L+2), threads 1/2/4/16; sam.ToMultiAlign in-process; non-trivial = some CIGAR has an operator other than M",
     },
     "C02": {
+        "cli": True,
         "extra_imports": ["Gofasta.Lemmas.PairSingle", "Gofasta.Lemmas.PairSpec"],
         "extra_theorems": ["Gofasta.Lemmas.PairSpec.specPair_lossless", "Gofasta.Lemmas.PairSpec.specPair_skip_insertions",
                            "Gofasta.Lemmas.PairSpec.specPair_lengths", "Gofasta.Lemmas.blockToSeqPair_single", "Gofasta.Lemmas.single_ref_lossless", "Gofasta.Lemmas.single_lengths",
@@ -108,6 +118,7 @@ PROPS = {
                 "sam.ToPairAlign in-process in directory mode, files read back in query order",
     },
     "C11": {
+        "cli": True,
         "extra_imports": ["Gofasta.Lemmas.FastaWrite"],
         "extra_theorems": ["Gofasta.Lemmas.FastaWrite.written_reads_back", "Gofasta.Lemmas.FastaWrite.file_bytes"],
         "streams": {"C11": (450, 8000)},
@@ -127,6 +138,7 @@ PROPS = {
                 "toPairAlign: windows through the gapped reference row, --wrap; non-trivial = a window, a wrap width or a relation is exercised",
     },
     "C08": {
+        "cli": True,
         "extra_imports": ["Gofasta.Lemmas.Balance"],
         "extra_theorems": ["Gofasta.Lemmas.fillLoop_inv", "Gofasta.Lemmas.fillLoop_sum_le", "Gofasta.Lemmas.fillLoop_mono",
                            "Gofasta.Lemmas.fillLoop_complete", "Gofasta.Lemmas.balance_fill_spec", "Gofasta.Lemmas.fillLoop_even",
@@ -141,6 +153,7 @@ PROPS = {
                 "the spec verdict is relational (bin membership, distances, prefix order, size constraints, evenness)",
     },
     "C09": {
+        "cli": True,
         "extra_imports": ["Gofasta.Lemmas.CsvRoundTrip"],
         "extra_theorems": ["Gofasta.Lemmas.CsvRT.csv_roundtrip", "Gofasta.Lemmas.CsvRT.run_id_comma", "Gofasta.Lemmas.CsvRT.atoi_digitsOf",
                            "Gofasta.Lemmas.CsvRT.ambArr_render", "Gofasta.Lemmas.CsvRT.splitB_joinB"],
